@@ -17,6 +17,35 @@ REPO = os.environ.get('KVC_REPO', '/repo')
 _AST_CACHE = {}
 
 
+class _OsPath(object):
+    """string functions of os.path on concrete path names (pure; nothing touches the real file system)"""
+    @staticmethod
+    def splitext(p):
+        import os.path as _p
+        if not isinstance(p, str):
+            raise Unsupported('os.path.splitext of a non-concrete name')
+        return _p.splitext(p)
+
+    @staticmethod
+    def basename(p):
+        import os.path as _p
+        return _p.basename(p)
+
+    @staticmethod
+    def dirname(p):
+        import os.path as _p
+        return _p.dirname(p)
+
+    @staticmethod
+    def join(*a):
+        import os.path as _p
+        return _p.join(*a)
+
+
+class OsModel(object):
+    path = _OsPath()
+
+
 class SchemaGap(Unsupported):
     pass
 
@@ -437,6 +466,8 @@ class Interp(object):
             return importlib.import_module(name)
         if name == 'warnings':
             return WarningsModel()
+        if name in ('os', 'os.path'):
+            return OsModel() if name == 'os' else OsModel.path
         if name.split('.')[0] == 'kawin':
             return self.load(name)
         return Opaque(name)
